@@ -120,6 +120,27 @@ def run(R):
                     R.count('packets')
                     R.cover('plaintext_lengths', n if n in lengths else 'other')
                 R.case(mon.fp('ch', sa, sb, lid, pid, n) if n else None, sample={'local_id': lid.hex()[:16], 'peer_id': pid.hex()[:16], 'order': order, 'len': n})
+            # another local identity opens a channel to the SAME peer in this process (and the first pair is used again afterwards):
+            # nothing derived for A<->B may leak into C<->B
+            if i % 3 == 0:
+                sc_ = rng.randbytes(32)
+                cc = Client(sc_)
+                st, res = mon.call(lambda: (AdnlChannel(cc, Server('h', 1, cb.ed25519_public.encode()), lid, pid),
+                                            AdnlChannel(cb, Server('h', 1, cc.ed25519_public.encode()), pid, lid)))
+                if st == 'ok':
+                    C2, B2 = res
+                    data = rng.randbytes(40)
+                    W2 = dict(W, seed_c=sc_)
+                    R.check(C2.channel_shared == B2.channel_shared, 'shared-secret-differs-second-identity', 'a second local identity talking to the same peer derives '
+                            'another secret than that peer (state carried over from the first channel)', W2)
+                    for X, Y in ((C2, B2), (B2, C2), (A, B), (B, A)):
+                        st, pkt = mon.call(X.encrypt, data)
+                        ok = st == 'ok' and pkt[:32] == Y.server_aes_key_id
+                        if ok:
+                            st, back = mon.call(Y.decrypt, pkt[64:], pkt[32:64])
+                            ok = st == 'ok' and back == data
+                        R.check(ok, 'peer-cannot-decrypt-second-identity', 'with two local identities talking to one peer, a channel is no longer symmetric', W2)
+                    R.count('second_identity_pairs')
 
         # ---- signatures
         nkeys = 6 if quick else 60
@@ -168,7 +189,10 @@ def run(R):
                     m2 = bytearray(msg)
                     m2[j // 8] ^= 1 << (j % 8)
                     R.check(rejected(pub, bytes(m2), sig), 'verifies-flipped-message', 'signature verifies for a message with one bit flipped', W)
-                R.count('signature_negatives', 4)
+                for alt_name, alt in (('one-byte-appended', sig + b'\x00'), ('doubled', sig + sig), ('message-appended', sig + msg[:8] + b'x'), ('last-byte-dropped', sig[:-1]),
+                                      ('first-half', sig[:32]), ('empty', b''), ('all-zero', bytes(64))):
+                    R.check(rejected(pub, msg, alt), f'altered-signature-accepted-{alt_name}', f'altered signature ({alt_name}, {len(alt)} bytes) verifies', W)
+                R.count('signature_negatives', 11)
                 if n in (32, 100) or not quick:
                     bad = 0
                     for b in range(512):
@@ -218,6 +242,16 @@ def run(R):
                 sig = signature.sign_message(msg, priv)
                 R.check(signature.verify_sign(pub, msg, sig) is True, 'derived-key-signature', 'a signature by the derived key does not verify under the derived public key', {'words': words})
                 R.count('derivations')
+        for i in range(4 if quick else 12):
+            pw = rng.choice(['x', 'correct horse', 'пароль'])
+            st, words = mon.call(keys.mnemonic_new, 24, pw)
+            if st == 'exc':
+                R.violation('mnemonic-new-raises', f'mnemonic_new(24, password) raised {words!r}', {'password': pw})
+                continue
+            R.check(keys.mnemonic_is_valid(words) is True, 'generated-mnemonic-invalid-with-password', 'mnemonic_is_valid(mnemonic_new(24, password)) is false',
+                    {'words': words, 'password': pw})
+            R.count('mnemonics_with_password')
+            R.case(mon.fp('mnpw', tuple(words)))
         R.check(keys.mnemonic_is_valid(['abandon'] * 23) is False, 'short-mnemonic-valid', '23-word mnemonic accepted', {})
     finally:
         C.uninstall()
@@ -228,6 +262,8 @@ def run(R):
     R.floor('signature_bitflips', 512)
     R.floor('mnemonics', 5)
     R.floor('derivations', 2)
+    R.floor('second_identity_pairs', 5)
+    R.floor('mnemonics_with_password', 3)
 
 
 def replay(R, w, rec):
